@@ -203,8 +203,9 @@ class Exec:
             return True
         if z3.is_false(cond):
             return False
-        s = z3.Solver()
+        s = z3.SimpleSolver()
         s.set("timeout", self.opts.get("feas_ms", 400))
+        s.set("mbqi", False)     # refutation by E-matching only: a model search over quantified facts never pays off here
         for c in self.pc:
             s.add(c)
         s.add(cond)
@@ -259,6 +260,8 @@ class Exec:
         return self.ps.setdefault("sum", [])
 
     def note_write(self, arr, node=None):
+        if getattr(arr.cell, "read_only_model", False):
+            raise Unsupported("write through a value whose aliasing is not modelled at %s" % self.where(node))
         self.ps.setdefault("writes", []).append((arr.cell, self.where(node)))
 
     def note_nan_read(self, view, node=None):
@@ -730,8 +733,12 @@ class Exec:
         L.k = 0
         if seq is not None:
             L.bind_index(0)
+        n_pc = len(self.pc)
         for name, g in named(inv(self, L)).items():
             self.oblige("%s.%s.inv-init.%s" % (self.prop, lid, name), g, "inv-init", st)
+            if c.sequential:
+                self.assume(g)      # clauses are proved in order: an earlier clause is a hypothesis of the later ones
+        del self.pc[n_pc:]
         # havoc
         mods = assigned_names(st.body) | set(c.loop_modifies.get(k, []))
         if isinstance(st, ast.For):
@@ -810,6 +817,8 @@ class Exec:
                 L.bind_index(kk + 1)
             for name, g in named(inv(self, L)).items():
                 self.oblige("%s.%s.inv-step.%s" % (self.prop, lid, name), g, "inv-step", st)
+                if c.sequential:
+                    self.assume(g)  # proved in order (the path ends here)
             dec = c.loop_decreases.get(k)
             if dec is not None and seq is None:
                 raise Unsupported("while-loop decreases not implemented")
@@ -936,6 +945,7 @@ class Exec:
         raise Unsupported("havoc of %s (%s)" % (n, type(cur).__name__))
 
     def _havoc_cell(self, arr, n):
+        arr.cell.writes += 1          # havoc stands for writes of the loop body / the callee: frame conditions see it
         arr.cell.term = z3.Const(fresh_name(n), arr.cell.term.sort())
         if arr.cell.nan is not None:
             arr.cell.nan = z3.Const(fresh_name(n + "_nan"), arr.cell.nan.sort())
